@@ -22,7 +22,7 @@ ASSUMPTIONS = ['PyWavelets 1.10 wavedec/wavedec2 is the specification',
                'sizes bounded (1-D <= 130, 2-D sides <= 33), J <= 4']
 TIMEOUT = {'quick': 900, 'thorough': 3000}
 WORKER_BUDGET = {'quick': 600, 'thorough': 2400}
-MIN_HELD = {'quick': 300, 'thorough': 1500}
+MIN_HELD = {'quick': 300, 'thorough': 40351}
 KF_PER = 'periodization-level-shorter-than-filter'
 
 
